@@ -100,6 +100,7 @@ class Interp:
         m = getattr(self, 'x_' + type(st).__name__, None)
         if m is None:
             raise Unsupported(f'statement {type(st).__name__} at line {st.lineno}')
+        self.last_line = (self.callstack[-1] if self.callstack else None, getattr(st, 'lineno', None))
         if self.engine.drop_rules and self.callstack:
             src = ast.unparse(st)
             for fn_qual, prefix, why in self.engine.drop_rules:
